@@ -212,7 +212,10 @@ Absorb(gg, F, keep) ==
   IF \E p \in DOMAIN F : ChildDone(F, p, keep)
   THEN LET p == CHOOSE q \in DOMAIN F : ChildDone(F, q, keep)
            rest == [q \in (DOMAIN F) \ {p} |-> F[q]]
-       IN Absorb(gg, [rest EXCEPT ![""] = FinishNode(F[""], SubNode(gg, p), ResultValue(Norm(F[p])))], keep)
+           n == SubNode(gg, p)
+           \* (a graph that is a member of a chain's parallel stage has its result stored under the stage's output key <n>)
+           v == IF n \in Range(gg.bare) THEN (n :> ResultValue(Norm(F[p]))) ELSE ResultValue(Norm(F[p]))
+       IN Absorb(gg, [rest EXCEPT ![""] = FinishNode(F[""], n, v)], keep)
   ELSE F
 \* all frames as the rule sees them now
 ViewK(S, keep) == LET F == Absorb(S.g, S.fr, keep) IN [p \in DOMAIN F |-> Norm(F[p])]
@@ -403,7 +406,9 @@ ErrorWhy(gg, V, e) == LET c == e.class IN
        \* (a panic inside a node's output stream -- lazily converted stream -- surfaces where the stream is consumed)
        (IF ~SerrRan(V) /\ ~\E x \in Failing(V, "panic") : e.path = PathOf(gg, x[1]) \o <<x[2]>> THEN "panic-error-names-wrong-node-path" ELSE "ok")
   ELSE IF c = "maxsteps" THEN
-       (IF ~\E p \in DOMAIN V : (StepLimitHit(V[p]) \/ LimitAtDeadEnd(V[p])) /\ e.path = PathOf(gg, p) THEN "max-steps-error-not-expected"
+       \* (a chain generates its own node keys: for a lowered chain only the length of the path is compared)
+       (IF ~\E p \in DOMAIN V : (StepLimitHit(V[p]) \/ LimitAtDeadEnd(V[p]))
+                                 /\ (e.path = PathOf(gg, p) \/ (gg.lower = "chain" /\ Len(e.path) = Len(PathOf(gg, p)))) THEN "max-steps-error-not-expected"
         ELSE IF ~e.is THEN "max-steps-sentinel-not-matchable" ELSE "ok")
   ELSE IF c = "canceled" THEN
        (IF ~CancelRan(V) THEN "canceled-without-cancel" ELSE IF ~e.is THEN "context-error-not-matchable" ELSE "ok")
